@@ -69,7 +69,43 @@ def link_offset_case(nlp):
                 bounds={"link points": nlp, "position": "symbolic, link boundaries included"})
 
 
+def speed_limit_kinematics_case(ramp0=True, dtv=1, mass=1000):
+    """SpeedLimitTrainSim::solve_required_pwr: the same bookkeeping in the speed-limited simulation, from an arbitrary state"""
+    import slstep
+    recv = slstep.sl_step_recv(ramp0, dtv, mass)
+    dt = lambda c: c.pre["state.dt"]
+    v0 = lambda c: c.pre["state.speed"]
+    v1 = lambda c: c.post["state.speed"]
+    # the new speed is snapped to the target when they agree to 1e-8 (utils::almost_eq): positions are advanced with the unsnapped value,
+    # so the mean-speed relation holds up to that snap
+    snap = lambda c: eps8(c.post["state.speed_target"]) * (ABS(c.post["state.speed_target"]) + ABS(v1(c))) + eps8(c.post["state.speed_target"])
+    adv = lambda c: c.post["state.offset"] - c.pre["state.offset"]
+
+    claims = [
+        Claim("time advances by exactly the step size", lambda c: EQ(c.post["state.time"], c.pre["state.time"] + dt(c)), when="ok", role="sl_time"),
+        Claim("step size itself is not changed by the step", lambda c: EQ(c.post["state.dt"], dt(c)), when="ok", role="sl_dt"),
+        Claim("front advances by step size * mean of the speeds before and after (steps whose new speed is not snapped onto the target)",
+              lambda c: IMP(NOT(XEQ(v1(c), c.post["state.speed_target"])), EQ(adv(c), dt(c) * (v0(c) + v1(c)) / 2)), when="ok", role="sl_offset_advance"),
+        Claim("total distance grows by |position change|", lambda c: EQ(c.post["state.total_dist"] - c.pre["state.total_dist"], ABS(adv(c))), when="ok", role="sl_total_dist"),
+        Claim("rear position = front position - train length", lambda c: EQ(c.post["state.offset_back"], c.post["state.offset"] - c.pre["state.length"]), when="ok", role="sl_offset_back"),
+        Claim("train length and masses untouched", lambda c: AND(EQ(c.post["state.length"], c.pre["state.length"]), EQ(c.post["state.mass_static"], c.pre["state.mass_static"])), when="ok", role="sl_frame"),
+        Claim("no_panic", None, when="nopanic", role="sl_no_panic"),
+    ]
+    return Case(f"speed_limit_step_kinematics_{'ramp0' if ramp0 else 'ramp'}_dt{dtv}_m{mass}".replace(".", "p"), "C12", "SpeedLimitTrainSim", recv, [Call("SpeedLimitTrainSim::solve_required_pwr", [])],
+                lambda S: slstep.sl_step_domain(S, ramp0), claims,
+                bounds={"braking points": 2, "consist": "one DummyLoco", "brake ramp-up time": "0 (what TrainSimBuilder sets)" if ramp0 else "symbolic > 0", "steps": "1 from an arbitrary state (inductive)",
+                        "step size": f"{dtv} s (concrete)", "train mass": f"{mass} kg (concrete)"},
+                max_paths=20000, timeout_ms=60000, check_side=False)
+
+
 def m_cases(tier):
+    cs = [speed_limit_kinematics_case(True)] + _m_cases(tier)
+    if tier == "thorough":
+        cs.append(speed_limit_kinematics_case(False))
+    return cs
+
+
+def _m_cases(tier):
     cs = [step_kinematics_case(1, 2), step_kinematics_case(2, 3), link_offset_case(3), link_offset_case(4)]
     if tier == "thorough":
         cs += [step_kinematics_case(1, 3, 4), step_kinematics_case(3, 4, 4), link_offset_case(2), link_offset_case(5), link_offset_case(6)]
